@@ -70,7 +70,8 @@ def run_config(cfg):
         rep.case(explorer.digest(["ref", cfg]), nontrivial=False)
         # determinism of the reference (replay twice before trusting anything)
         R2 = rh.run(cfg)
-        if rh.diff(rh.summary(R), rh.summary(R2)) or [b for _, b in R2.sink] != [b for _, b in ck]:
+        if rh.diff(rh.summary(R), rh.summary(R2)) or len(R2.sink) != len(ck) or not all(
+                rh.payload_equal(a[1], b[1]) and a[0] == b[0] for a, b in zip(R2.sink, ck)):
             raise explorer.HarnessError(f"reference run is not deterministic for {cfg}")
         last_for_k = {}
         for k in range(K):
@@ -82,7 +83,7 @@ def run_config(cfg):
                 rep.violation(f"C11/run-raises/{F.exception[0]}/{F.exception[1]}", F.exception, {"cfg": cfg, "crash_point": k})
                 last_for_k[k] = -1
                 continue
-            if [b for _, b in F.sink] != [b for _, b in ck[: len(F.sink)]]:
+            if not all(rh.payload_equal(a[1], b[1]) for a, b in zip(F.sink, ck[: len(F.sink)])):
                 raise explorer.HarnessError(f"faulted run diverged from the reference before the fault (k={k}, {cfg})")
             j = len(F.sink) - 1
             last_for_k[k] = j
